@@ -26,7 +26,7 @@ BUILD = os.path.join(VERIF, "build")
 NWORK = int(os.environ.get("VERIF_WORKERS", "16"))
 
 sys.path.insert(0, VERIF)
-from registry import PROPS, WHITELIST, T4PKGS  # noqa: E402
+from registry import PROPS, WHITELIST, T4PKGS, NOT_APPLICABLE, TECHNIQUE  # noqa: E402
 
 
 def find_go():
@@ -425,12 +425,67 @@ def setup():
     return 0
 
 
+def manifest():
+    """Write MANIFEST.json from the registry (single source of truth)."""
+    all_ids = [json.loads(l)["id"] for l in open(os.path.join(VERIF, "properties.jsonl"))]
+    checks = []
+    for pid in sorted(PROPS):
+        sp = PROPS[pid]
+        checks.append({
+            "property_id": pid,
+            "quick_cmd": "python3 /verif/check.py %s quick" % pid,
+            "thorough_cmd": "python3 /verif/check.py %s thorough" % pid,
+            "evidence_file": "/verif/evidence/%s.json" % pid,
+            "replay_cmd_template": "python3 /verif/check.py replay {path}",
+            "engine": "simrt",
+            "level_claimed": {"category": sp["level"], "text": sp["text"], "design_ref": sp.get("design_ref", "3")},
+            "level_note": sp["note"],
+            "technique": sp.get("technique", TECHNIQUE),
+        })
+    na = []
+    for pid in all_ids:
+        if pid in PROPS:
+            continue
+        reason = NOT_APPLICABLE.get(pid)
+        if reason is None:
+            reason = "not claimed: the harness designed for it in DESIGN.md is not built yet (no check is registered rather than a hollow one)"
+        na.append({"property_id": pid, "reason": reason})
+    m = {
+        "version": 1,
+        "setup_cmd": "python3 /verif/check.py setup",
+        "hooks": {
+            "guard": "verif",
+            "enable": "no hook is committed to /repo: harness and simulator sources live in /verif and are injected at build time with "
+                      "`go test -tags verif -overlay /verif/build/overlay.json -modfile /verif/build/go.mod`; the overlay also replaces "
+                      "whitelisted restic sources by mechanically rewritten copies (simify: sync.Mutex -> schedulable mutex, go statements -> "
+                      "named goroutines, GOMAXPROCS/time/pid virtualised) generated from /repo's current working tree on every check",
+            "baseline_off_cmd": "cd /repo && go test -vet=off -count=1 -timeout 25m ./...",
+            "source_commits": [],
+            "add_only": True,
+        },
+        "engines": [{
+            "name": "simrt", "path": "/verif/sim", "serves_properties": sorted(PROPS),
+            "kind_free_text": "deterministic simulation: testing/synctest bubble + seeded choice-tape scheduler over all mutex/backend/rand/goroutine-start "
+                              "park points + simulated object store with crash and fault injection + independent store decoder as oracle",
+        }],
+        "checks": checks,
+        "not_applicable": na,
+        "notes": "fix commits in /repo: see /verif/known_findings.json (status fixed). Replay: python3 /verif/check.py replay <file>.",
+    }
+    with open(os.path.join(VERIF, "MANIFEST.json"), "w") as fh:
+        json.dump(m, fh, indent=1)
+    print("MANIFEST.json: %d checks, %d not claimed" % (len(checks), len(na)))
+    return 0
+
+
 def main():
     if len(sys.argv) < 2:
         die(__doc__)
     cmd = sys.argv[1]
     if cmd == "setup":
         sys.exit(setup())
+    if cmd == "manifest":
+        sys.exit(manifest())
     if cmd == "list":
         for k, v in sorted(PROPS.items()):
             print(k, v["pkg"], v["test"])
